@@ -128,6 +128,46 @@ def producer_stream(ck):
     ck.stream("flv-producer", cases, "C02_flv_producer", "flv_producer", "C02_flv_producer_ok",
               nontrivial=lambda c: len(c[2]) >= 2, sig=lambda c, e, o: "flv-producer")
 
+# ---- FLV late join next to other viewers that are real flv.Writer consumers (block added by the C02 proof worker) ----
+def viewers_case(rng, ntags):
+    base = rng.choice([100000, 100000, 3600000, 4294967000, 777, rng.randrange(1 << 32)])   # source clock well away from 0
+    tags, ts = [], base
+    if rng.random() < 0.9: tags.append([18, 0, bytes([2, 0, 10]) + b"onMetaData" + rb(rng, 3)])
+    if rng.random() < 0.9: tags.append([9, 0, bytes([0x17, 0]) + rb(rng, 4)])
+    if rng.random() < 0.7: tags.append([8, 0, bytes([0xaf, 0, 0x12, 0x10])])
+    while len(tags) < ntags:
+        k = rng.random()
+        if k < 0.25 or not any(t[0] == 9 and t[2][1] == 1 for t in tags):
+            tags.append([9, ts % (1 << 32), bytes([0x17, 1]) + rb(rng, 5)])            # key frame
+        elif k < 0.75:
+            tags.append([9, ts % (1 << 32), bytes([0x27, 1]) + rb(rng, 4)])            # inter frame
+        elif k < 0.95:
+            tags.append([8, ts % (1 << 32), bytes([0xaf, 1]) + rb(rng, 3)])            # audio
+        else:
+            tags.append([9, 0, bytes([0x17, 0]) + rb(rng, 4)])                         # new sequence header
+        ts += rng.choice([40, 40, 33, 0, 23])
+    tags = tags[:ntags]
+    nview = rng.choice([1, 1, 2])
+    attach_at = sorted(rng.randrange(0, max(1, ntags // 2)) for _ in range(nview))
+    events, attached = [], 0
+    for i in range(ntags + 1):
+        while attached < nview and attach_at[attached] <= i:
+            events.append([1]); attached += 1
+        events.append([3])                                                               # the joiner: after every prefix
+        if i < ntags:
+            events.append([0])
+            for _ in range(rng.choice([0, 1, 1, 2])):
+                if attached:
+                    events.append([2, rng.randrange(attached), rng.choice([1, 2, 3, 8])])
+    return [rng.randrange(4) != 0, tags, events]
+
+def viewers_stream(ck):
+    rng = ck.rng
+    cases = [viewers_case(rng, rng.randrange(4, 16)) for _ in range(1200 if ck.thorough else 90)]
+    ck.stream("flv-join-next-to-viewers", cases, "C02_flv_viewers", "flv_viewers", "C02_flv_viewers_ok",
+              nontrivial=lambda c: len(c[1]) >= 4 and any(e[0] == 2 for e in c[2]),
+              sig=lambda c, e, o: "flv-join-shared-tags")
+
 def run(ck):
     if not ck.prepare():
         return ck.finish(rule="build failed")
@@ -170,6 +210,7 @@ def run(ck):
                              "set: the GOP cache does not start there")
     ck.extra["packetisations_wellformed"] = wf
     producer_stream(ck)
+    viewers_stream(ck)
     cases = []
     for _ in range(40 if ck.thorough else 2):
         for flv, h265 in ((False, False), (True, False), (False, True)):
@@ -186,6 +227,7 @@ def run(ck):
     return ck.finish(rule="(1) random RTP payloads (single NAL, STAP/AP incl. truncated and zero-size entries, FU with all S/E bits, garbage, "
                           "non-video channels) and FLV tags (full frame-type/codec nibbles, near-miss onMetaData) through the real "
                           "H264Cache/HevcCache/FlvCache CachePack+PushTo; (2) legal packetisations produced by the Gallina packetiser; "
+                          "(2c) FLV tag streams with source timestamps far from 0 published to a real FlvCache while 1-2 earlier viewers (real flv.Writer consumers sharing the tag objects) write some of them; a joiner attaches after every prefix; its replay (index, timestamp, data; read at the join and again at the end) against the cache specification over the published tags, published tags unchanged; "
                           "(2b) NAL units of every type (H.264 0..31, H.265 0..63; after an IDR GOP and as first frame; random sequences, with and without AAC) "
                           "through the real flv.Muxer/packetizers into a real FlvCache: kinds, timestamps and PushTo against the composition C08 packetizer model + FLV cache model; "
                           "(3) frame sequences (SPS/PPS, key starts, video, audio) published through WriteRtpPacket on a real H.264 or H.265 "
